@@ -21,8 +21,12 @@ TStep == l <= Len(T) /\ pc # "done" /\ Next /\ UNCHANGED <<tid, l>>
 
 HasLT(line) == \E k \in 1..Len(line) : line[k] = "<"
 WordChars == Digits \cup Range(UpperS) \cup Range(LowerS) \cup {"_", "-"}
-NonWord(ev) == ev.t = "str" /\ \E k \in 1..Len(ev.s) : ev.s[k] \notin WordChars \cup {",", " "}
-Spaced(ev) == ev.t = "str" /\ \E k \in 1..Len(ev.s) : ev.s[k] = " "
+\* a multi-select entry with an item that has an inner blank or a character outside [A-Za-z0-9_-]
+MultiSpecial(qq, ev) ==
+  /\ qq.kind = "choice" /\ qq.multi /\ ev.t = "str"
+  /\ LET ps == Parts(ev.s)
+     IN \E k \in 1..Len(ps) : LET it == Strip(ps[k]) IN \E j \in 1..Len(it) : it[j] \notin WordChars
+Mode(qq) == IF qq.multi THEN "/multi" ELSE "/single"
 
 \* keys: which violation of the clause this is
 TermKey(o) == IF o.reads > o.consumed THEN "end-of-input" ELSE "no-read"
@@ -31,13 +35,16 @@ AcceptKey(qq, sc, st, o) ==
   IN IF B = {} THEN ""
      ELSE LET k == MinOf(B)
               ev == Entry(qq, sc[st + k])
-          IN ClassAt(qq, sc, st, k).why \o (IF qq.multi THEN "/multi" ELSE "/single")
-             \o (IF Spaced(ev) THEN "/spaced" ELSE "") \o (IF NonWord(ev) THEN "/non-word" ELSE "")
-RejectKey(qq, sc, st, o) == IF o.consumed >= 1 THEN ClassAt(qq, sc, st, o.consumed).why \o (IF qq.multi THEN "/multi" ELSE "/single")
-                            ELSE "no-entry"
+          IN IF MultiSpecial(qq, ev) THEN "multi/item-with-blank-or-special-character"
+             ELSE ClassAt(qq, sc, st, k).why \o Mode(qq)
+RejectKey(qq, sc, st, o) ==
+  IF o.consumed >= 1
+  THEN (IF MultiSpecial(qq, Entry(qq, sc[st + o.consumed])) THEN "multi/item-with-blank-or-special-character"
+        ELSE ClassAt(qq, sc, st, o.consumed).why \o Mode(qq))
+  ELSE "no-entry"
 AttemptsKey(qq, sc, st, o) ==
   IF qq.maxAtt > 0 /\ o.reads > qq.maxAtt THEN "late"
-  ELSE IF \E k \in 1..o.consumed : HasLT(sc[st + k]) THEN "early/markup" ELSE "early"
+  ELSE IF o.consumed >= 1 /\ HasLT(sc[st + o.consumed]) THEN "early/markup" ELSE "early"   \* the last entry read has a "<"
 
 Clauses(e) ==
   LET qq == e.q
